@@ -324,7 +324,8 @@ func (r *renderer) step(s *Step, bare bool) StepText {
 				names = append(names, "*")
 			} else {
 				r.sb.WriteString(r.name(s.Ent[i].Key, s.Ent[i].Q))
-				names = append(names, s.Ent[i].Key)
+				// (a name entry never reports by itself: the error names the whole selector; only a
+				// wildcard entry may report "*")
 			}
 		}
 		r.sp()
